@@ -195,6 +195,59 @@ for t_i in range(2 if Q else 12):
                                    "i": int(i), "j": int(j), "H_ij": A[g_, i, j], "H_ji_reciprocal": Bt[g_, i, j],
                                    "relative_residual": res, "frequency": freq})
 
+# ---------------------------------------------------------------------------
+# captures other than FMC: one transmitter for all timetraces, a single timetrace, HMC, random
+# pair lists.  The coefficient of timetrace k (tx_k -> rx_k) in view X-Y must equal the coefficient
+# of the swapped timetrace (rx_k -> tx_k) in the reciprocal view, whatever the list of pairs.
+# ---------------------------------------------------------------------------
+for t_i in range(4 if Q else 40):
+    setup = arimgen.immersion_setup(rng, max_refl=int(rng.integers(0, 2)), wall_points=80,
+                                    numelements=int(rng.integers(2, 6)), numscat=int(rng.integers(2, 4)),
+                                    attenuation=bool(rng.integers(0, 2)))
+    views, block, probe, freq = setup["views"], setup["block"], setup["probe"], setup["freq"]
+    numel = probe.numelements
+    vl, vt = block.longitudinal_vel, block.transverse_vel
+    cap = ["one-transmitter", "single-timetrace", "hmc", "random-pairs"][t_i % 4]
+    if cap == "one-transmitter":
+        tx = np.full(numel, int(rng.integers(0, numel))); rx = np.arange(numel)
+    elif cap == "single-timetrace":
+        tx = np.array([int(rng.integers(0, numel))]); rx = np.array([int(rng.integers(0, numel))])
+    elif cap == "hmc":
+        tx, rx = arim.ut.hmc(numel)
+    else:
+        k = int(rng.integers(1, 2 * numel))
+        tx, rx = rng.integers(0, numel, size=k), rng.integers(0, numel, size=k)
+    tx, rx = np.asarray(tx), np.asarray(rx)
+    rw = bim.ray_weights_for_views(views, freq, float(rng.uniform(0.2e-3, 1.0e-3)))
+    scatterers = [("crack", scat.CrackCentreScat(float(rng.uniform(0.5e-3, 3e-3)), vl, vt, block.density).as_angles_funcs(freq)),
+                  ("sdh", scat.SdhScat(float(rng.uniform(0.2e-3, 1.5e-3)), vl, vt).as_angles_funcs(freq)),
+                  ("matrix", reciprocal_matrices(int(rng.integers(4, 40)), vl, vt))]
+    for sname, scattering in scatterers:
+        scat_angle = float(rng.uniform(-np.pi, np.pi)) if rng.random() < 0.5 else 0.0
+        fwd = {vn: np.asarray(model.model_amplitudes_factory(tx, rx, v, rw, scattering, scat_angle)[...]) for vn, v in views.items()}
+        swp = {vn: np.asarray(model.model_amplitudes_factory(rx, tx, v, rw, scattering, scat_angle)[...]) for vn, v in views.items()}
+        scale = max(float(np.nanmax(np.abs(a))) if np.isfinite(a).any() else 0.0 for a in fwd.values()) or 1.0
+        for vn, a in fwd.items():
+            rvn = arim.ut.reciprocal_viewname(vn)
+            b = swp[rvn]
+            ok_mask = np.isfinite(a) & np.isfinite(b)
+            if not ok_mask.any():
+                continue
+            diff = np.where(ok_mask, np.abs(a - b), 0.0)
+            res = float(np.max(diff) / scale)
+            evaluations += a.size
+            nontrivial.add(("capture", t_i, cap, sname, vn))
+            chk.count(capture=cap)
+            worst_rec = max(worst_rec, res)
+            if not (res <= RTOL):
+                g_, k = np.unravel_index(int(np.argmax(diff)), a.shape)
+                chk.violation(f"reciprocity-capture:{sname}",
+                              f"P({vn}; tx_k -> rx_k) != P({rvn}; rx_k -> tx_k) for scatterer kind '{sname}' with a {cap} capture",
+                              {"view": vn, "reciprocal_view": rvn, "scatterer": sname, "scat_angle": scat_angle, "capture": cap,
+                               "tx": tx, "rx": rx, "timetrace": int(k), "grid_point": int(g_), "P": a[g_, k], "P_reciprocal": b[g_, k],
+                               "relative_residual": res, "block": [block.density, vl, vt], "frequency": freq,
+                               "probe_locations": probe.locations.coords, "scatterer_points": setup["scat"].points.coords})
+
 chk.finish(
     evaluations=evaluations,
     distinct_nontrivial=len(nontrivial),
